@@ -621,6 +621,14 @@ func Run(r *fw.Run) {
 }
 
 func Replay(r *fw.Run, raw json.RawMessage) {
+	// a schedule of one of the fork scenarios (engine E4) is replayed by the scheduler worker
+	var probe struct {
+		Scenario string `json:"scenario"`
+	}
+	if json.Unmarshal(raw, &probe) == nil && probe.Scenario != "" {
+		c14.Replay(r, raw)
+		return
+	}
 	var c caseT
 	if err := json.Unmarshal(raw, &c); err != nil {
 		r.Violation("replay", err.Error(), nil)
